@@ -122,12 +122,12 @@ func (sc *vSched) exec(st vStep) error {
 			{http.StatusOK, []byte(`{}`)},
 			{http.StatusBadRequest, []byte(`{"Status":"no match"}`)},
 		}
-		v := r.rand(len(variants))
+		v := r.variant("bad", len(variants))
 		r.log(vEvent{"ev": "resp", "kind": "bad", "variant": v})
 		return sc.respondPoll(st, variants[v].status, variants[v].body)
 	case "OfferUndecodable":
 		variants := []string{"this is not json", `{"type":"offer"}`, `{"sdp":"v=0"}`, `{"type":"nonsense","sdp":"v=0"}`, `[1,2]`}
-		v := r.rand(len(variants))
+		v := r.variant("undecodable", len(variants))
 		b, _ := messages.EncodePollResponseWithRelayURL(variants[v], true, "unknown", vURL("in_ws", 0), "")
 		r.log(vEvent{"ev": "resp", "kind": "undecodable", "variant": v})
 		return sc.respondPoll(st, http.StatusOK, b)
@@ -156,7 +156,7 @@ func (sc *vSched) exec(st vStep) error {
 		}
 		if kind == "bad" {
 			variants := []string{`{"type":"offer","sdp":"v=0\r\nthis is not sdp\r\n"}`, `{"type":"offer","sdp":""}`, `{"type":"answer","sdp":"v=0\r\n"}`}
-			offer = variants[r.rand(len(variants))]
+			offer = variants[r.variant("badsdp", len(variants))]
 		}
 		b, _ := messages.EncodePollResponseWithRelayURL(offer, true, "unknown", vURL(class, s), "")
 		r.log(vEvent{"ev": "resp", "kind": "offer", "cls": class, "sdp": kind, "addr": addr, "s": s})
@@ -229,7 +229,7 @@ func (sc *vSched) exec(st vStep) error {
 		}
 		gone, _ := messages.EncodeAnswerResponse(false)
 		variants := []vHTTPResp{{http.StatusOK, gone}, {http.StatusInternalServerError, []byte("boom")}, {http.StatusOK, []byte("{")}, {http.StatusOK, []byte(`{}`)}}
-		v := r.rand(len(variants))
+		v := r.variant("answerfail", len(variants))
 		r.log(vEvent{"ev": "aresp", "kind": "fail", "variant": v})
 		a.resp <- variants[v]
 		return sc.await(st, "rs.exit.answerfail", sc.wait, evExit("answerfail"))
